@@ -75,6 +75,12 @@ def replay(rec):
         return {'results': [('C12.build', 'error', '%s: %s' % (type(e).__name__, (str(e).splitlines() or [''])[-1][:200]))],
                 'error': traceback.format_exc()}
     res.append(('C12.f:untouched', 'ok' if before == after else 'mismatch', 'declared counts before %s after %s' % (before, after)))
+    if hasattr(B, 'template'):
+        # a clone carries everything its template declares (states, quadrature states, controls, variables, parameters, constraints)
+        # (constraints may be added to a clone afterwards -- coupling constraints declared on a stage -- so a clone has at least the template's)
+        nparts = len(B.parts); tc = before[nparts]
+        bad = [i + 1 for i in range(nparts) if before[i][:5] != tc[:5] or before[i][5] < tc[5]]
+        res.append(('C12.f:clone_content', 'ok' if not bad else 'mismatch', 'template declares %s (states, quadrature states, controls, variables, parameters, constraints); clones %s declare %s' % (tc, bad, [before[i - 1] for i in bad])))
     assign = {}
     for si, (d, pr) in enumerate(zip(final['stages'], probes)):
         assign.update(assign_stage(si, d, pr, o))
